@@ -20,6 +20,13 @@ def models(tier):
     ready += [("ans", 0), ("ans", 1), ("ans2", 0), ("tick", 2), ("b", 0, "dwr", "dwr"), ("b", 0, "req", "req_unkapp"), ("b", 0, "dwr", "dpr")]
     m1 = monitors.ScenarioModel("inbound-ready", BASE, ready, [monitors.AnswerMonitor], max_socks=1,
                                 prelude=[("accept",), ("m", 0, "cer_p0")])
+    # reads that end inside the next message (its header complete, its body not), and reads holding an undecodable frame behind a request
+    auto = copy.deepcopy(BASE)
+    auto["apps"][0]["behaviour"] = "answer"
+    mcut = monitors.ScenarioModel("reads-ending-inside-the-next-message", auto,
+                                  [("mcut", 0, "dwr", "dwr"), ("mcut", 0, "req", "dwr"), ("mcut", 0, "dwr", "req"), ("mcut", 0, "req_missing", "req"),
+                                   ("m", 0, "dwr"), ("m", 0, "req")],
+                                  [monitors.AnswerMonitor], max_socks=1, prelude=[("accept",), ("m", 0, "cer_p0")])
     raising = copy.deepcopy(BASE)
     raising["apps"][0]["behaviour"] = "raise"
     m1r = monitors.ScenarioModel("inbound-ready-handler-raises", raising,
@@ -57,7 +64,7 @@ def models(tier):
     same += [("ans", 0), ("ans", 1), ("ans2", 0)]
     m5 = monitors.ScenarioModel("one-peer-several-connections", BASE, same, [monitors.AnswerMonitor], max_socks=3,
                                 prelude=[("accept",), ("m", 0, "cer_p0"), ("accept",), ("m", 1, "cer_p0")])
-    out = [m1, m1r, m1n, m1w, m2, m3, m4, m5]
+    out = [m1, mcut, m1r, m1n, m1w, m2, m3, m4, m5]
     # a second deterministic scheduling policy (the I/O thread runs only when nothing else can): thorough tier
     if tier == "thorough":
         out = monitors.with_io_last(out)
